@@ -730,3 +730,47 @@ def fam_kernels(g, prop, count, types):
             lst.append({"id": "%s-kernels-%05d-%s" % (prop, i, ty), "lines": lines, "n": n})
         out[ty] = lst
     return out
+
+
+# ----------------------------------------------------------------------------- C15
+DROP_BASIC, DROP_PROWS, DROP_COLUMN, DROP_AREA, DROP_SECONDARY, DROP_DYNAMIC, DROP_INTERP = 1, 2, 4, 8, 0x0E, 0x10, 0x100
+
+
+def fam_ilu(g, prop, count, types, nmax=8):
+    """structurally nonsingular matrices (zero diagonals, singular leading blocks) through ?gsisx with every drop rule
+    combination, tolerances, fill factors, norms, MILU variants, row-permutation option, Trans, orderings, tunings"""
+    out = {}
+    for ty, k in split_types(count, types).items():
+        cplx = is_cplx(ty)
+        lst = []
+        for i in range(k):
+            r = g.r
+            n = r.randint(1, nmax)
+            kind = r.choice(["lu", "zerodiag", "generic", "generic", "singlead", "float"])
+            if kind == "lu":
+                A = g.lu_product(n, cplx)
+            elif kind == "float":
+                A, _ = g.matrix(n, n, cplx, style="float")
+            elif kind == "singlead":
+                A, _ = g.matrix(n, n, cplx, style="pow2", kind="dense")
+                if n >= 2:        # numerically singular leading 2x2 block
+                    A[(0, 0)] = (1.0, 0.0); A[(0, 1)] = (2.0, 0.0); A[(1, 0)] = (2.0, 0.0); A[(1, 1)] = (4.0, 0.0)
+            else:
+                A, _ = g.matrix(n, n, cplx, style=r.choice(["pow2", "small"]), kind="zerodiag" if kind == "zerodiag" else None)
+            nodrop = r.random() < 0.3
+            rule = 0 if nodrop else r.choice([DROP_BASIC, DROP_BASIC | DROP_AREA, DROP_BASIC | DROP_PROWS, DROP_BASIC | DROP_COLUMN, DROP_BASIC | DROP_SECONDARY,
+                                              DROP_BASIC | DROP_AREA | DROP_DYNAMIC, DROP_BASIC | DROP_PROWS | DROP_INTERP, DROP_BASIC | DROP_AREA | DROP_INTERP, DROP_PROWS, DROP_AREA, DROP_COLUMN | DROP_DYNAMIC])
+            o = {"iludefault": 0, "ColPerm": r.choice([NATURAL, COLAMD, MMD_ATA, MMD_AT_PLUS_A]), "u": float(r.choice([1.0, 0.5, 0.125, 0.0625])),
+                 "DropRule": rule, "DropTol": 0.0 if nodrop else float(r.choice([0.0, 2.0 ** -10, 2.0 ** -4, 0.5])), "FillFactor": float(r.choice([1.0, 2.0, 10.0])),
+                 "Norm": r.choice([0, 1, 2]), "MILU": r.choice([0, 0, 1, 2, 3]), "FillTol": float(r.choice([2.0 ** -7, 0.01, 2.0 ** -20])),
+                 "RowPerm": r.choice([0, 0, 1]), "Trans": r.choice([0, 1, 2]), "Equil": r.choice([0, 1]), "PivotGrowth": r.choice([0, 1]), "Cond": r.choice([0, 1])}
+            fmt = r.choice(["NC", "NC", "NR"])
+            if cplx and fmt == "NR" and o["Trans"] == 2:
+                o["Trans"] = 1
+            nrhs = r.choice([1, 2])
+            B = [small_vec(g, n, cplx) for _ in range(nrhs)]
+            lines = ["tune " + " ".join(map(str, g.tune()))] + g.mat_lines(A, n, n, fmt, cplx) + g.rhs_lines(B, n, nrhs, n, cplx) + opt_lines(o)
+            lines += gssvx_block(work=None, events=0, fn="gsisx") + ["destroy all", "ledger"]
+            lst.append({"id": "%s-ilu%s%s-%05d-%s" % (prop, kind, "nodrop" if nodrop else "", i, ty), "lines": lines, "n": n})
+        out[ty] = lst
+    return out
